@@ -3,6 +3,8 @@
 (* force linking of the driver modules (each registers its commands) *)
 let () = Drv_check.(ignore of_error)
 let () = Dfa_io.(ignore of_inp)
+let () = Drv_meaning.(ignore linked)
+let () = Drv_ambig.(ignore linked)
 let () = Drv_emit.(ignore emit_linked)
 let () = Drv_dot.(ignore linked)
 let () = Drv_amb.(ignore linked)
